@@ -326,6 +326,17 @@ class _Run:
             return
         pargs = self.path_args(op)
         reserved = any(has_reserved(p) for p in pargs)
+        if k not in ("meta_set", "meta_del", "patch") and op[1] != "/":
+            # the receiver must be an existing user group (a dataset has no path-taking protocol)
+            try:
+                recv_ok = not _is_ds(self.grp(self.mc, op[1]))
+            except Exception:
+                recv_ok = False
+            if not recv_ok:
+                if pargs:
+                    self.out.append("err")
+                self.tags.add("skipped-no-receiver")
+                return
         if not reserved and k in ("copyg", "copyng") and op[4] is not None and op[4].startswith("/"):
             # observation, outside the property: an absolute `name=` next to a destination
             # group is taken relative to the group by the wrapper (dest.name + "/" + name) and
@@ -789,7 +800,7 @@ def paths_cases(ctx):
     for s in fixed:
         ops += [["int", s], ["mb", s], ["tm", s, 0], ["tm", s, 1], ["td", s], ["intp", s, "metador_meta_"], ["intp", s, "a"], ["intp", s, ""]]
     cases.append(dict(kind="paths", ops=ops))
-    n = 20 if ctx.quick else 300
+    n = 20 if ctx.quick else 1000
     for _ in range(n):
         ops = []
         for _ in range(40):
@@ -808,7 +819,7 @@ def paths_cases(ctx):
 def plant_cases(ctx):
     rng = ctx.rng
     cases = []
-    n = 24 if ctx.quick else 400
+    n = 24 if ctx.quick else 2000
     names = USER[:4] + RESERVED_NAMES[:4] + NEAR_MISS[:4]
     for i in range(n):
         drv = "h5" if i % 3 else "ih5"
@@ -850,7 +861,7 @@ def plant_cases(ctx):
 def hist_cases(ctx):
     rng = ctx.rng
     cases = []
-    n = 60 if ctx.quick else 1200
+    n = 60 if ctx.quick else 5000
     for i in range(n):
         drv = "h5" if i % 3 else "ih5"
         k = rng.randrange(8, 30 if drv == "h5" else 18)
@@ -929,7 +940,8 @@ def search(ctx):
     except Exception as e:  # noqa: BLE001
         ctx.search_log.append("method table not available: %r" % (e,))
     if extra:
-        case = dict(kind="generic", methods=[[m["name"], len(m["params"]), [m["params"].index(p) for p in m["pathParams"] if p in m["params"]]] for m in extra], shapes=RESERVED_SHAPES[:8])
+        plain = lambda m: [p for p in m["params"] if not p.startswith("*")]  # noqa: E731
+        case = dict(kind="generic", methods=[[m["name"], len(plain(m)), [plain(m).index(p) for p in m["pathParams"] if p in plain(m)]] for m in extra], shapes=RESERVED_SHAPES[:8])
         r = pool.run_one(MOD, "impl_generic", case, timeout=120)
         ctx.search_log.append("generic probe of %d unknown table methods" % len(extra))
         if "ok" in r and r["ok"]["oracle"]:
